@@ -30,6 +30,7 @@ import (
 	"github.com/nspcc-dev/neo-go/pkg/vm/stackitem"
 	"github.com/nspcc-dev/neo-go/pkg/vm/vmstate"
 	"github.com/nspcc-dev/neo-go/pkg/wallet"
+	"github.com/nspcc-dev/neofs-node/internal/verifhook"
 	"go.uber.org/zap"
 )
 
@@ -190,6 +191,11 @@ func (c *Client) GetVersion() (*result.Version, error) {
 // SendRawTransaction sends specified transaction to the Neo blockchain the
 // Client connected to and returns the transaction hash.
 func (c *Client) SendRawTransaction(tx *transaction.Transaction) (util.Uint256, error) {
+	if verifhook.Enabled {
+		if ok, r := verifhook.Morph(c, "SendRawTransaction", tx); ok {
+			return verifhook.Res[util.Uint256](r, 0), verifhook.ResErr(r, 1)
+		}
+	}
 	var conn = c.conn.Load()
 
 	if conn == nil {
@@ -203,6 +209,11 @@ func (c *Client) SendRawTransaction(tx *transaction.Transaction) (util.Uint256, 
 // blockchain the Client connected to and returns the fallback transaction's
 // hash.
 func (c *Client) SubmitP2PNotaryRequest(req *payload.P2PNotaryRequest) (util.Uint256, error) {
+	if verifhook.Enabled {
+		if ok, r := verifhook.Morph(c, "SubmitP2PNotaryRequest", req); ok {
+			return verifhook.Res[util.Uint256](r, 0), verifhook.ResErr(r, 1)
+		}
+	}
 	var conn = c.conn.Load()
 
 	if conn == nil {
@@ -304,6 +315,11 @@ func (e *notHaltStateError) Error() string {
 // Note: true await flag always means additional subscription for [Client] which
 // is always limited on server side, use it carefully.
 func (c *Client) Invoke(ctx context.Context, contract util.Uint160, await, payByProxy bool, fee fixedn.Fixed8, method string, args ...any) error {
+	if verifhook.Enabled {
+		if ok, r := verifhook.Morph(c, "Invoke", contract, await, payByProxy, fee, method, args); ok {
+			return verifhook.ResErr(r, 0)
+		}
+	}
 	var conn = c.conn.Load()
 
 	if conn == nil {
@@ -335,6 +351,11 @@ func (c *Client) Invoke(ctx context.Context, contract util.Uint160, await, payBy
 // TestInvoke invokes contract method locally in neo-go node. This method should
 // be used to read data from smart-contract.
 func (c *Client) TestInvoke(contract util.Uint160, method string, args ...any) ([]stackitem.Item, error) {
+	if verifhook.Enabled {
+		if ok, r := verifhook.Morph(c, "TestInvoke", contract, method, args); ok {
+			return verifhook.Res[[]stackitem.Item](r, 0), verifhook.ResErr(r, 1)
+		}
+	}
 	resInvoke, err := c.Call(contract, method, args...)
 	if err != nil {
 		return nil, err
@@ -352,6 +373,11 @@ func (c *Client) TestInvoke(contract util.Uint160, method string, args ...any) (
 // If prefetchElements > 0, that many elements are tried to be placed on stack without
 // additional network communication (without the iterator expansion).
 func (c *Client) TestInvokeIterator(contract util.Uint160, method string, prefetchElements int, args ...any) (res []stackitem.Item, err error) {
+	if verifhook.Enabled {
+		if ok, r := verifhook.Morph(c, "TestInvokeIterator", contract, method, prefetchElements, args); ok {
+			return verifhook.Res[[]stackitem.Item](r, 0), verifhook.ResErr(r, 1)
+		}
+	}
 	var conn = c.conn.Load()
 
 	if conn == nil {
@@ -403,6 +429,11 @@ func (c *Client) TestInvokeIterator(contract util.Uint160, method string, prefet
 
 // TransferGas to the receiver from local wallet.
 func (c *Client) TransferGas(receiver util.Uint160, amount fixedn.Fixed8) error {
+	if verifhook.Enabled {
+		if ok, r := verifhook.Morph(c, "TransferGas", receiver, amount); ok {
+			return verifhook.ResErr(r, 0)
+		}
+	}
 	var conn = c.conn.Load()
 
 	if conn == nil {
@@ -424,6 +455,11 @@ func (c *Client) TransferGas(receiver util.Uint160, amount fixedn.Fixed8) error 
 
 // GasBalance returns GAS amount in the client's wallet.
 func (c *Client) GasBalance() (res int64, err error) {
+	if verifhook.Enabled {
+		if ok, r := verifhook.Morph(c, "GasBalance"); ok {
+			return verifhook.Res[int64](r, 0), verifhook.ResErr(r, 1)
+		}
+	}
 	var conn = c.conn.Load()
 
 	if conn == nil {
@@ -440,6 +476,11 @@ func (c *Client) GasBalance() (res int64, err error) {
 
 // Committee returns keys of chain committee from neo native contract.
 func (c *Client) Committee() (res keys.PublicKeys, err error) {
+	if verifhook.Enabled {
+		if ok, r := verifhook.Morph(c, "Committee"); ok {
+			return verifhook.Res[keys.PublicKeys](r, 0), verifhook.ResErr(r, 1)
+		}
+	}
 	var conn = c.conn.Load()
 
 	if conn == nil {
@@ -451,6 +492,11 @@ func (c *Client) Committee() (res keys.PublicKeys, err error) {
 
 // TxHalt returns true if transaction has been successfully executed and persisted.
 func (c *Client) TxHalt(h util.Uint256) (res bool, err error) {
+	if verifhook.Enabled {
+		if ok, r := verifhook.Morph(c, "TxHalt", h); ok {
+			return verifhook.Res[bool](r, 0), verifhook.ResErr(r, 1)
+		}
+	}
 	var conn = c.conn.Load()
 
 	if conn == nil {
@@ -467,6 +513,11 @@ func (c *Client) TxHalt(h util.Uint256) (res bool, err error) {
 
 // TxHeight returns true if transaction has been successfully executed and persisted.
 func (c *Client) TxHeight(h util.Uint256) (res uint32, err error) {
+	if verifhook.Enabled {
+		if ok, r := verifhook.Morph(c, "TxHeight", h); ok {
+			return verifhook.Res[uint32](r, 0), verifhook.ResErr(r, 1)
+		}
+	}
 	var conn = c.conn.Load()
 
 	if conn == nil {
@@ -480,6 +531,11 @@ func (c *Client) TxHeight(h util.Uint256) (res uint32, err error) {
 // stores alphabet node keys of inner ring there, however FS chain stores both
 // alphabet and non alphabet node keys of inner ring.
 func (c *Client) NeoFSAlphabetList() (res keys.PublicKeys, err error) {
+	if verifhook.Enabled {
+		if ok, r := verifhook.Morph(c, "NeoFSAlphabetList"); ok {
+			return verifhook.Res[keys.PublicKeys](r, 0), verifhook.ResErr(r, 1)
+		}
+	}
 	var conn = c.conn.Load()
 
 	if conn == nil {
@@ -502,6 +558,11 @@ func (c *Client) GetDesignateHash() util.Uint160 {
 // MagicNumber returns the magic number of the network
 // to which the underlying RPC node client is connected.
 func (c *Client) MagicNumber() (uint32, error) {
+	if verifhook.Enabled {
+		if ok, r := verifhook.Morph(c, "MagicNumber"); ok {
+			return verifhook.Res[uint32](r, 0), verifhook.ResErr(r, 1)
+		}
+	}
 	var conn = c.conn.Load()
 
 	if conn == nil {
@@ -514,6 +575,11 @@ func (c *Client) MagicNumber() (uint32, error) {
 // BlockCount returns block count of the network
 // to which the underlying RPC node client is connected.
 func (c *Client) BlockCount() (res uint32, err error) {
+	if verifhook.Enabled {
+		if ok, r := verifhook.Morph(c, "BlockCount"); ok {
+			return verifhook.Res[uint32](r, 0), verifhook.ResErr(r, 1)
+		}
+	}
 	var conn = c.conn.Load()
 
 	if conn == nil {
@@ -525,6 +591,11 @@ func (c *Client) BlockCount() (res uint32, err error) {
 
 // GetBlockHeader returns block header by index.
 func (c *Client) GetBlockHeader(ind uint32) (*block.Header, error) {
+	if verifhook.Enabled {
+		if ok, r := verifhook.Morph(c, "GetBlockHeader", ind); ok {
+			return verifhook.Res[*block.Header](r, 0), verifhook.ResErr(r, 1)
+		}
+	}
 	conn := c.conn.Load()
 	if conn == nil {
 		return nil, ErrConnectionLost
@@ -535,6 +606,11 @@ func (c *Client) GetBlockHeader(ind uint32) (*block.Header, error) {
 
 // MsPerBlock returns MillisecondsPerBlock network parameter.
 func (c *Client) MsPerBlock() (res int64, err error) {
+	if verifhook.Enabled {
+		if ok, r := verifhook.Morph(c, "MsPerBlock"); ok {
+			return verifhook.Res[int64](r, 0), verifhook.ResErr(r, 1)
+		}
+	}
 	var conn = c.conn.Load()
 
 	if conn == nil {
@@ -548,6 +624,11 @@ func (c *Client) MsPerBlock() (res int64, err error) {
 
 // IsValidScript returns true if invocation script executes with HALT state.
 func (c *Client) IsValidScript(script []byte, signers []transaction.Signer) (bool, error) {
+	if verifhook.Enabled {
+		if ok, r := verifhook.Morph(c, "IsValidScript", script, signers); ok {
+			return verifhook.Res[bool](r, 0), verifhook.ResErr(r, 1)
+		}
+	}
 	var conn = c.conn.Load()
 
 	if conn == nil {
@@ -566,6 +647,11 @@ func (c *Client) IsValidScript(script []byte, signers []transaction.Signer) (boo
 // tokens for. Nil key with no error is returned if the account has no NEO
 // or if the account hasn't voted for anyone.
 func (c *Client) AccountVote(addr util.Uint160) (*keys.PublicKey, error) {
+	if verifhook.Enabled {
+		if ok, r := verifhook.Morph(c, "AccountVote", addr); ok {
+			return verifhook.Res[*keys.PublicKey](r, 0), verifhook.ResErr(r, 1)
+		}
+	}
 	var conn = c.conn.Load()
 
 	if conn == nil {
@@ -590,6 +676,11 @@ func (c *Client) AccountVote(addr util.Uint160) (*keys.PublicKey, error) {
 // that are currently in the RPC node's notary request pool with the
 // corresponding hashes of fallback transactions.
 func (c *Client) GetRawNotaryPool() (*result.RawNotaryPool, error) {
+	if verifhook.Enabled {
+		if ok, r := verifhook.Morph(c, "GetRawNotaryPool"); ok {
+			return verifhook.Res[*result.RawNotaryPool](r, 0), verifhook.ResErr(r, 1)
+		}
+	}
 	var conn = c.conn.Load()
 
 	if conn == nil {
@@ -603,6 +694,11 @@ func (c *Client) GetRawNotaryPool() (*result.RawNotaryPool, error) {
 // from the RPC node's notary request pool.
 // NOTE: to get transaction.ID and transaction.Size, use t.Hash() and io.GetVarSize(t) respectively.
 func (c *Client) GetRawNotaryTransactionVerbose(hash util.Uint256) (*transaction.Transaction, error) {
+	if verifhook.Enabled {
+		if ok, r := verifhook.Morph(c, "GetRawNotaryTransactionVerbose", hash); ok {
+			return verifhook.Res[*transaction.Transaction](r, 0), verifhook.ResErr(r, 1)
+		}
+	}
 	var conn = c.conn.Load()
 
 	if conn == nil {
@@ -615,6 +711,11 @@ func (c *Client) GetRawNotaryTransactionVerbose(hash util.Uint256) (*transaction
 // InvokeContainedScript makes 'invokecontainedscript' RPC through the current
 // connection.
 func (c *Client) InvokeContainedScript(tx *transaction.Transaction, header *block.Header, t *trigger.Type, verbose *bool) (*result.Invoke, error) {
+	if verifhook.Enabled {
+		if ok, r := verifhook.Morph(c, "InvokeContainedScript", tx, header, t, verbose); ok {
+			return verifhook.Res[*result.Invoke](r, 0), verifhook.ResErr(r, 1)
+		}
+	}
 	var conn = c.conn.Load()
 
 	if conn == nil {
